@@ -24,6 +24,8 @@ func init() {
 }
 
 func runC14(p *an.Prog, r *an.Run, tier string) {
+	checkShippedCodec(p, r)
+	checkPendingOrder(p, r)
 	call := p.Method("jsonrpc2", "Remote", "Call")
 	serve := p.Method("jsonrpc2", "Remote", "Serve")
 	recv := p.Method("jsonrpc2", "Remote", "receive")
@@ -993,4 +995,30 @@ func memMapFieldName(v ssa.Value) string {
 		}
 	}
 	return ""
+}
+
+// checkPendingOrder: when the pending table is over its limit the OLDEST entries go — the abandoned ones — so the order
+// the eviction sorts by is the entries' time stamps: pendingQueue.Less compares a time field of its two elements (by id
+// text, "10" sorts before "7": past a power of ten the live waiters are discarded and the stale entries kept).
+func checkPendingOrder(p *an.Prog, r *an.Run) {
+	less := p.Method("jsonrpc2", "pendingQueue", "Less")
+	if less == nil {
+		r.Undec("async-dispatch", "jsonrpc2.pendingQueue.Less", token.NoPos, "anchor not found")
+		return
+	}
+	ok := false
+	an.AllInstrs(less, func(in ssa.Instruction) {
+		ret, isRet := in.(*ssa.Return)
+		if !isRet || len(ret.Results) != 1 {
+			return
+		}
+		for _, n := range p.Derives(0, ret.Results[0]).Nodes {
+			if fv := an.FieldOf(n); fv != nil {
+				if nm := namedOf(fv.Type()); nm != nil && nm.Obj().Pkg() != nil && nm.Obj().Pkg().Path() == "time" && nm.Obj().Name() == "Time" {
+					ok = true
+				}
+			}
+		}
+	})
+	r.Check(ok, "async-dispatch", an.FuncName(less), less.Pos(), "pending entries are ordered by their time stamp", "%s does not order the pending entries by their time stamp: eviction under PendingLimit no longer discards the oldest (abandoned) entries first, and live waiters lose their slot", an.FuncName(less))
 }
